@@ -122,3 +122,58 @@ Proof.
     destruct (IH _ _ _ _ rest D2 C2 E2) as [B3 [Hr3 [D3 C3]]]. rewrite Hr3.
     exists B3. split; [reflexivity|split; assumption].
 Qed.
+
+(* ---- both directions, any interleaving of whole histories ----------------- *)
+Lemma duplex_sym A B : duplex A B -> duplex B A.
+Proof. intros [P Q]. split; assumption. Qed.
+
+(* a session = a list of phases; in each phase one side sends a history and the other reads it *)
+Inductive sess_res :=
+| SessDone (A B : stream) (out : list (list bytes))
+| SessSendRefused          (* some send was refused by the sender (too large / counter guard) *)
+| SessRecvFailed.          (* the receiver raised an error or returned something else *)
+
+Fixpoint session (api : rapi) (A B : stream) (phases : list (bool * list msg)) : sess_res :=
+  match phases with
+  | [] => SessDone A B []
+  | (a_sends, h) :: rest =>
+      let '(Sd, Rc) := if a_sends then (A, B) else (B, A) in
+      match send_all Sd h with
+      | (Sd1, SOk fs) =>
+          let '(Rc1, got, e, lft) := recv_upto api Rc (length h) fs in
+          match e, lft with
+          | None, [] =>
+              match (if a_sends then session api Sd1 Rc1 rest else session api Rc1 Sd1 rest) with
+              | SessDone A2 B2 more => SessDone A2 B2 (got :: more)
+              | r => r
+              end
+          | _, _ => SessRecvFailed
+          end
+      | (_, SErr _) => SessSendRefused
+      end
+  end.
+
+(* whatever the interleaving of directions: the receiver never fails, and if no send is
+   refused every phase delivers exactly what was sent *)
+Lemma session_roundtrip api : api = ApiComplete \/ api = ApiMessage ->
+  forall phases A B, duplex A B ->
+    match session api A B phases with
+    | SessDone A' B' out => out = map (fun p => map payload_of (snd p)) phases /\ duplex A' B'
+    | SessSendRefused => True
+    | SessRecvFailed => False
+    end.
+Proof.
+  intros Hapi. induction phases as [|[a_sends h] rest IH]; intros A B D.
+  - cbn [session map]. split; [reflexivity|exact D].
+  - cbn [session]. destruct a_sends.
+    + destruct (send_all A h) as [Sd1 [fs|e]] eqn:Es; [|exact I].
+      destruct (roundtrip_simple api Hapi h A B Sd1 fs [] D Es) as [Rc1 [Hr D1]]. rewrite app_nil_r in Hr. rewrite Hr.
+      specialize (IH Sd1 Rc1 D1).
+      destruct (session api Sd1 Rc1 rest) as [A2 B2 more| |]; [|exact I|exact IH].
+      destruct IH as [-> D2]. split; [reflexivity|exact D2].
+    + destruct (send_all B h) as [Sd1 [fs|e]] eqn:Es; [|exact I].
+      destruct (roundtrip_simple api Hapi h B A Sd1 fs [] (duplex_sym _ _ D) Es) as [Rc1 [Hr D1]]. rewrite app_nil_r in Hr. rewrite Hr.
+      specialize (IH Rc1 Sd1 (duplex_sym _ _ D1)).
+      destruct (session api Rc1 Sd1 rest) as [A2 B2 more| |]; [|exact I|exact IH].
+      destruct IH as [-> D2]. split; [reflexivity|exact D2].
+Qed.
